@@ -56,7 +56,7 @@ def rule_bind(ctx, files=(ENC, DEC, TOK, LAY), rule="C01.bind"):
 
 
 # ------------------------------------------------------------------ C01.int
-def writer_bytes(ctx, cls, fn):
+def writer_bytes(ctx, cls, fn, _depth=0):
     """-> (value param, [bitvec per appended byte]) or None"""
     ps = params_of(fn)
     if len(ps) != 2:
@@ -70,6 +70,15 @@ def writer_bytes(ctx, cls, fn):
         if isinstance(s, ast.Expr) and isinstance(s.value, ast.Call) and isinstance(s.value.func, ast.Attribute) \
                 and s.value.func.attr == "append" and unparse(s.value.func.value) == data and len(s.value.args) == 1:
             out.append((s, bits.ev(s.value.args[0], {v: bits.var("v", bits.N)}, cev)))
+        elif isinstance(s, ast.Expr) and isinstance(s.value, ast.Call) and is_self_attr(s.value.func) and re.match(r"^writeInt\d+$", s.value.func.attr) \
+                and s.value.func.attr in cls.methods and s.value.func.attr != fn.name and len(s.value.args) == 2 and unparse(s.value.args[1]) == data and _depth < 3:
+            # the low-order bytes are written by a narrower writer: its bytes, with its argument replaced by what it is given
+            sub = writer_bytes(ctx, cls, cls.methods[s.value.func.attr], _depth + 1)
+            if sub is None:
+                return None
+            arg_bits = bits.ev(s.value.args[0], {v: bits.var("v", bits.N)}, cev)
+            for (s2, bv) in sub[1]:
+                out.append((s, bits.subst(bv, {"v": arg_bits})))
         else:
             return None
     return v, out
@@ -440,9 +449,18 @@ def rule_tags(ctx):
     tp = ctx.repo.method(ENC, "WriteEncoder", "tryPackAndWriteHeader")
     pvals = set()
     for fn in enc.methods.values():
+        # loop variables that range over a constant tuple (`for packType in (255, 251):`)
+        loopvals = {}
+        for lp in ast.walk(fn):
+            if isinstance(lp, ast.For) and isinstance(lp.target, ast.Name):
+                la = alts(Evaluator(ctx.repo, enc.module, enc).ev(lp.iter))
+                if la and len(la) == 1 and isinstance(la[0], (tuple, list)):
+                    loopvals[lp.target.id] = list(la[0])
         for n in ast.walk(fn):
             if isinstance(n, ast.Call) and is_self_attr(n.func, "tryPackAndWriteHeader") and n.args:
                 a = alts(Evaluator(ctx.repo, enc.module, enc).ev(n.args[0]))
+                if a is None and isinstance(n.args[0], ast.Name) and n.args[0].id in loopvals:
+                    a = loopvals[n.args[0].id]
                 if a is None:
                     ctx.undecided("C01.tags", where(ENC, "WriteEncoder", n.lineno), n, "packed type passed to tryPackAndWriteHeader is not a constant")
                 else:
